@@ -207,6 +207,36 @@ def r10_hash_call(text, log, file, base_line):
     return text
 
 
+def r13_display_join(text, log, file, base_line):
+    """`E.iter().map(|v| format!("{v}")).collect()` (optionally `::<Vec<String>>`) -> `vx_display_all(&E)` and
+    `<that or its let-bound name>.join(SEP)` -> `vx_join(&.., SEP)`: Display formatting and `join` cannot be
+    verified (closures, iterator adapters, fmt machinery); they are abstracted as *uninterpreted but
+    deterministic* functions of their argument (declared in the unit's prelude, listed as trusted).  What is
+    then proved is everything around the string: equal inputs give equal strings, nothing about the text."""
+    rx = re.compile(r'((?:self|[a-z_]\w*)(?:\s*\.\s*[a-z_]\w*)*?)\s*\.\s*iter\(\)\s*\.\s*map\(\|(\w+)\|\s*format!\("\{\2\}"\)\)\s*\.\s*collect(?:::<Vec<String>>)?\(\)')
+    names = []
+    while True:
+        m = rx.search(text)
+        if not m:
+            break
+        recv = re.sub(r'\s+', '', m.group(1))
+        log.append(('R13', file, base_line + text.count('\n', 0, m.start()), re.sub(r'\s+', ' ', m.group(0))))
+        lm = re.search(r'let\s+(\w+)\s*(?::\s*Vec<String>)?\s*=\s*$', text[:m.start()])
+        if lm:
+            names.append(lm.group(1))
+        text = text[:m.start()] + f'vx_display_all(&{recv})' + text[m.end():]
+    if names or 'vx_display_all(' in text:
+        alt = '|'.join([r'vx_display_all\(&[\w\.]+\)'] + [re.escape(n) for n in names])
+        jx = re.compile(r'(?<![\w\.])(' + alt + r')\s*\.\s*join\(("[^"]*")\)')
+        while True:
+            m = jx.search(text)
+            if not m:
+                break
+            log.append(('R13', file, base_line + text.count('\n', 0, m.start()), re.sub(r'\s+', ' ', m.group(0))))
+            text = text[:m.start()] + f'vx_join(&{m.group(1)}, {m.group(2)})' + text[m.end():]
+    return text
+
+
 def r11_const_static(text, log, file, base_line):
     """R11/R12: `const N: &[u8] = b"..";` becomes an `exec const` whose body is the repository's
     literal (external_body: Verus cannot coerce a byte-string array to a slice) and whose `ensures`
@@ -362,6 +392,18 @@ class Weaver:
                             u.add(v, tag=f'{u.name}.{key}.spec')
                 open_impl = in_impl
             text = self.weave_item(u, it, src, msk, span, file, base_line, strip_modules)
+            if it.get('impl_header') and header and 'Self::' in text:
+                # R15: associated types of the trait impl being checked as an inherent impl are resolved from
+                # the `type X = T;` items of that very impl block
+                hp = src.find(header)
+                bo_ = src.find('{', hp + len(header) - 1) if hp >= 0 else -1
+                if bo_ >= 0:
+                    blk = src[bo_:match_close(msk, bo_)]
+                    for am in re.finditer(r'\btype\s+(\w+)\s*=\s*([^;]+);', blk):
+                        t2 = re.sub(r'\bSelf::' + am.group(1) + r'\b', am.group(2).strip(), text)
+                        if t2 != text:
+                            u.rewrites.append(('R15', file, base_line, f'Self::{am.group(1)} -> {am.group(2).strip()} (associated type of the impl)'))
+                            text = t2
             if hoist:
                 text = re.sub(r'\bSelf::', '', text)
                 u.rewrites.append(('R7', file, base_line, f'hoisted {parts[-1]} out of {header}'))
@@ -377,6 +419,10 @@ class Weaver:
         for lf in spec.get('lemma_files', []):
             u.add(f'// ---- lemmas {lf}\n' + open(os.path.join(self.cdir, 'prelude', lf)).read(), tag=f'{u.name}.lemmas:{lf}')
         # `lemmas = ...` written after an [[item]] table lands inside that table in TOML: accept both places
+        for it in spec.get('item', []):
+            for sub in it.get('hint', []) + it.get('loop', []):
+                if 'lemmas' in sub or 'lemma_files' in sub:
+                    raise ValueError(f'{spec_path}: `lemmas` written after an [[item.hint]]/[[item.loop]] table is swallowed by it: move it to the top of the file')
         for lem in [spec.get('lemmas')] + [it.get('lemmas') for it in spec.get('item', [])]:
             if lem:
                 u.add('// ---- lemmas\n' + lem, tag=f'{u.name}.lemmas')
@@ -450,6 +496,7 @@ class Weaver:
         text = r8_ref_pattern(text, u.rewrites, file, base_line)
         text = r9_str_contains(text, u.rewrites, file, base_line)
         text = r10_hash_call(text, u.rewrites, file, base_line)
+        text = r13_display_join(text, u.rewrites, file, base_line)
         text = r11_const_static(text, u.rewrites, file, base_line)
         text = r5_self_path(text, u.rewrites, file, base_line, strip_modules)
         for fnname in getattr(self, '_fn_names', []):
